@@ -242,6 +242,22 @@ def decomposition_chain(ctx, crate, which=("hash_v1", "hash_with_dxdy"), clause=
                 else:
                     ret = r.ret if r.returns else None
                     if not (ret == bh.ret or (ret is not None and ret[0] == 'agg' and ret[3] and ret[3][0] == bh.ret)): why = "the cell number returned is %s, not the result of build_hash" % (show(ret)[:60] if ret else None)
+            if why is None and short == "hash_with_dxdy" and r.returns and r.ret[0] == 'agg' and len(r.ret[3]) == 3:
+                # the offsets are taken from the cell coordinates AFTER depth0_bits (which may move the
+                # position to the neighbouring cell), not from the ones discretize returned
+                seen_ = set(); syms = set()
+                def leaves_(t, depth=0):
+                    if t in seen_ or depth > 12 or not isinstance(t, tuple): return
+                    seen_.add(t)
+                    if t[0] == 'sym': syms.add(t); return
+                    if t[0] == 'phi':
+                        for o in (e.phi_gate.get(t) or e.phi_ops.get(t, ())): leaves_(o, depth + 1)
+                        return
+                    for x in t:
+                        if isinstance(x, tuple): leaves_(x, depth + 1)
+                leaves_(r.ret[3][1]); leaves_(r.ret[3][2])
+                if dc.ret in syms: why = "the offsets (dx, dy) are computed from the cell coordinates returned by discretize, before depth0_bits may move the position to the neighbouring cell"
+                elif not any(havoc_of(x, d0) for x in syms): why = "the offsets (dx, dy) do not read the cell coordinates left by depth0_bits"
             if why is None:
                 for xg in [ev for ev in evs if ev.callee == XGT]:
                     if xg.args[1:4] != [('fld', R, 0), ('fld', R, 1), H]:
